@@ -37,6 +37,26 @@ fn query(k0: usize, k1: usize, k2: usize) -> UCanonical<InEnvironment<Goal<VI>>>
 }
 
 fn trivial(k0: usize, k1: usize, k2: usize) {
+    trivial_core(k0, k1, k2);
+    cover!(true);
+}
+
+/// every combination of binder kinds with `k0` first (thorough tier)
+fn trivial_row(k0: usize) {
+    let mut k1 = 0;
+    while k1 < 4 {
+        let mut k2 = 0;
+        while k2 < 4 {
+            arena_reset();
+            trivial_core(k0, k1, k2);
+            k2 += 1;
+        }
+        k1 += 1;
+    }
+    cover!(true);
+}
+
+fn trivial_core(k0: usize, k1: usize, k2: usize) {
     let q = query(k0, k1, k2);
     let s = q.trivial_substitution(I);
     let ks = [k0, k1, k2];
@@ -66,7 +86,6 @@ fn trivial(k0: usize, k1: usize, k2: usize) {
     };
     assert!(q.is_trivial_substitution(I, &ans));
     std::mem::forget(ans);
-    cover!(true);
 }
 
 /// is_identity_subst on three entries of fixed sorts with symbolic variables: exactness
@@ -99,6 +118,10 @@ vharness!(c28_q_trivial_ty_lt_const, 8, { trivial(0, 2, 3) });
 vharness!(c28_q_trivial_const_int_ty, 8, { trivial(3, 1, 0) });
 vharness!(c28_t_trivial_lt_lt_ty, 8, { trivial(2, 2, 0) });
 vharness!(c28_t_trivial_ty_ty_ty, 8, { trivial(0, 0, 1) });
+vharness!(c28_t_trivial_row_ty, 8, { trivial_row(0) });
+vharness!(c28_t_trivial_row_int, 8, { trivial_row(1) });
+vharness!(c28_t_trivial_row_lifetime, 8, { trivial_row(2) });
+vharness!(c28_t_trivial_row_const, 8, { trivial_row(3) });
 vharness!(c28_q_identity_ty_lt_const, 8, { identity_exact(0, 2, 3) });
 vharness!(c28_t_identity_const_ty_lt, 8, { identity_exact(3, 0, 2) });
 // a ground entry is never the identity
